@@ -630,6 +630,42 @@ class Segment:
             return
         st["align"] = {st["ev"][n]: exp[n][0] for n in range(len(real))}
 
+    # ---- the restart procedure (setup_config/clean_data_file, initiation loop) of a restarted life
+    def first_step_k(self):
+        return self.steps[0]["ev"][0] if self.steps else len(self.events)
+
+    def in_restart_procedure(self, e):
+        return e["step"] is None and e["k"] < self.first_step_k() and (
+            "clean_data_file" in e["tags"] or ("prep_md_items" in e["tags"] and e["op"] == "mkdir"))
+
+    def restart_point(self, k, mode):
+        """audited event k of the restart procedure + crash mode -> (index, half) in the model's effect list
+        [dtopen, dtwrite, dtreplace]? ++ [mkdirworker i …]  (Model/FsRestart.lean `restartRun`)"""
+        pre = [e for e in self.events if e["k"] < self.first_step_k() and self.in_restart_procedure(e)]
+        clean = [e for e in pre if "clean_data_file" in e["tags"]]
+        e = self.events[k]
+        if e in clean:
+            if e["op"] == "open-w":
+                return {"before": (0, False), "trunc": (1, False), "half": (1, True)}.get(mode)
+            return {"before": (2, False), "after": (3, False)}.get(mode)
+        base = 3 if clean else 0
+        i = [x["k"] for x in pre if x not in clean].index(k)
+        return {"before": (base + i, False), "after": (base + i + 1, False)}.get(mode)
+
+    def restart_expected(self):
+        """the audited events the model's restart effect list stands for"""
+        pre = [e for e in self.events if e["k"] < self.first_step_k() and self.in_restart_procedure(e)]
+        out = []
+        for e in pre:
+            if "clean_data_file" in e["tags"]:
+                out.append("dtopen" if e["op"] == "open-w" else "dtreplace" if e["op"] == "move" else f"?{e['op']}")
+                if e["op"] == "open-w":
+                    out.append("dtwrite")
+            else:
+                m = re.fullmatch(r"worker(\d+)", e["path"] or "")
+                out.append(f"mkdirworker:{m.group(1)}" if m else f"?{e['path']}")
+        return out
+
     # ---- crash enumeration
     def crash_cases(self, limit_events=None, modes=("before", "trunc", "half")):
         cases = []
@@ -642,6 +678,13 @@ class Segment:
                 if "write_header" in e["tags"]:
                     continue
                 cases.append((e["k"], "before"))
+                if self.start_tree is not None and self.in_restart_procedure(e):
+                    # the restart procedure itself: clean_data_file rewriting the data file (temp file created /
+                    # half written / complete but not yet renamed / renamed), re-creation of the worker directories
+                    if e["op"] == "open-w":
+                        cases += [(e["k"], "trunc"), (e["k"], "half")]
+                    else:
+                        cases.append((e["k"], "after"))
                 continue
             for m in modes:
                 if m == "before" or e["op"] in ("open-w", "open-a"):
@@ -833,7 +876,17 @@ def enumerate_segment(ctx, seg, work, tag, depth_cb=None, limit_events=None, mod
             c["crashed"] = False
         out.append(c)
         # model point
-        if seg.model_ok and c["crashed"]:
+        if seg.model_ok and c["crashed"] and seg.start_tree is not None and seg.in_restart_procedure(e) \
+                and seg.pre_clean is not None and getattr(seg, "cfg", None):
+            # a death INSIDE the restart procedure: Model/FsRestart.lean `restartRun` / `crashAtR`
+            rp = seg.restart_point(k, mode)
+            if rp is not None:
+                pre = dict(seg.model0["disk"], **seg.pre_clean)      # the data file as the restart found it
+                c["rpoint"] = rp
+                c["model_line"] = (f"rcrash {seg.cfg} {disk_tokens(pre)} 0 {t_manifest(seg.model0['manifest'])} "
+                                   f"{seg.spec.get('workers', 1)} {rp[0]} {1 if rp[1] else 0}")
+                lines.append(c["model_line"])
+        elif seg.model_ok and c["crashed"]:
             if e["step"] is None:
                 nxt = next((si for si, st in enumerate(seg.steps) if st["ev"][0] > k), None)
                 if nxt is not None and seg.steps[nxt].get("pre"):
@@ -866,6 +919,7 @@ def enumerate_segment(ctx, seg, work, tag, depth_cb=None, limit_events=None, mod
                     tb = st.get("data_text", "").encode()
                     cutb = tb[:1] if mode == "one" else tb[: tb.index(b"\n") + 1]
                     choice = dict(choice, halfRows=cutb.count(b"\n"), halfTorn=bool(cutb) and not cutb.endswith(b"\n"))
+                c["mchoice"] = choice
                 c["model_line"] = (f"crash {seg.cfg} {t_mem(pre_mem)} {disk_tokens(pre_disk)} "
                                    f"{t_choice(choice)} {t_manifest(st['manifest'])} {j} {1 if half else 0}")
                 lines.append(c["model_line"])
@@ -878,6 +932,9 @@ def enumerate_segment(ctx, seg, work, tag, depth_cb=None, limit_events=None, mod
         ai += 1
         if ans == "bad-op":
             ctx.disagree({"segment": seg.label, "k": c["k"], "mode": c["mode"]}, "driver rejected the crash line", "-")
+            continue
+        if "rpoint" in c:
+            judge_restart_crash(ctx, seg, c, ans)
             continue
         dtok, flags, rec_s, restored, cleaned = ans.split(" | ")
         c["mdisk"] = Toks(dtok).disk()
@@ -912,6 +969,64 @@ def enumerate_segment(ctx, seg, work, tag, depth_cb=None, limit_events=None, mod
     return out
 
 
+def seg_tmpname(seg):
+    """name of write_toml's temp file in this history (None: the historical in-place variant has none)"""
+    return next((st["tmpname"] for st in seg.steps if st.get("tmpname")), None)
+
+
+def data_tmp_state(root, ref_ev):
+    """infretis_data.txt.tmp on a tree: ("absent" | "empty" | "part" | "complete", rows)"""
+    fp = os.path.join(root, "infretis_data.txt.tmp")
+    if not os.path.isfile(fp):
+        return "absent", None
+    sha, size = sha_of(fp)
+    if size == 0:
+        return "empty", None
+    if ref_ev is not None and sha == ref_ev.get("sha"):
+        rows = [r for r in (sim.data_rows(root, "infretis_data.txt.tmp") or []) if isinstance(r, int)]
+        return "complete", rows
+    if ref_ev is not None and size < (ref_ev.get("written") or 0):
+        return "part", None
+    return f"other({size} bytes)", None
+
+
+def judge_restart_crash(ctx, seg, c, ans):
+    """model (`rcrash`) vs the tree a death inside the restart procedure left behind"""
+    reg = seg.reg
+    dtok, dtmp, flags, effs, restored, after, dtmp_after = ans.split(" | ")
+    where = {"segment": seg.label, "k": c["k"], "mode": c["mode"], "kind": "restart-procedure"}
+    c["mdisk"] = Toks(dtok).disk()
+    c["mflags"] = dict(f.split("=") for f in flags.split())
+    c["mflags"].update(out=c["mflags"]["next"], trunc="0", rowwin="0")
+    c["mrestored"] = None if restored == "-" else Toks(restored).mem()
+    # the effect list of the restart, against the audited events of the reference restart
+    meffs = effs.split()[1:]
+    want = seg.restart_expected()
+    if [x.split(":")[0] if x.startswith("dtwrite") else x for x in meffs] != want:
+        ctx.disagree(dict(where, what="effects of the restart procedure"), want, meffs)
+    diffs = compare_tree(reg, c["root"], c["mdisk"], seg_tmpname(seg))
+    # the temp file of clean_data_file
+    ref_open = next((e for e in seg.events if "clean_data_file" in e["tags"] and e["op"] == "open-w"), None)
+    got, rows = data_tmp_state(c["root"], ref_open)
+    t = Toks(dtmp)
+    tag = t.nat()
+    mstate = ["absent", "empty", "part", "complete"][tag]
+    if got != mstate:
+        diffs.append(f"infretis_data.txt.tmp: {got}, model says {mstate}")
+    elif tag == 3:
+        mrows = t.lst(t.nat)
+        if rows != mrows:
+            diffs.append(f"infretis_data.txt.tmp: rows {rows}, model says {mrows}")
+    if diffs:
+        ctx.disagree(dict(where, what="disk after a crash inside the restart"), diffs[:6], "model disk")
+    if c["mflags"]["tmpok"] != "1" or dtmp_after.strip() != "0":
+        ctx.disagree(dict(where, what="temp file of the data file after the next restart"), "-",
+                     f"tmpok={c['mflags']['tmpok']} dtmp after the next restart={dtmp_after}")
+    ta = Toks(after)
+    c["mcleaned"] = {"rows": ta.lst(ta.nat), "garbled": ta.nat(), "torn": bool(ta.nat())}
+    ctx.hit(f"restart-procedure-crash:{mstate}")
+
+
 def judge(ctx, seg, cases, hist_id):
     """compare with the model's predictions and evaluate the property predicates"""
     spec = seg.spec
@@ -922,8 +1037,8 @@ def judge(ctx, seg, cases, hist_id):
         e, res = c["ev"], c["restart"]
         st = seg.steps[e["step"]] if e["step"] is not None else None
         kind = st["kind"] if st else "between-steps"
-        site = next((t for t in e["tags"] if t in ("write_toml", "write_to_pathens", "_move_path", "output_path_files",
-                                                   "make_dirs", "treat_output", "prep_md_items")), "other")
+        site = next((t for t in e["tags"] if t in ("clean_data_file", "write_toml", "write_to_pathens", "_move_path",
+                                                   "output_path_files", "make_dirs", "treat_output", "prep_md_items")), "other")
         ctx.count(1, branch=f"{kind}|{site}|{c['mode']}")
         ctx.distinct((hist_id, seg.label, c["k"], c["mode"]))
         have_record = isinstance(c["needed_rec"], dict)
@@ -1121,6 +1236,7 @@ def run_history(ctx, work, spec0, need, hist_id, depth2=0, limit2=45, case_filte
     seg.model0 = fresh_initial(sub, spec, seg.reg)
     seg.model_ok = ctx._driver_ok and spec.get("workers", 1) == 1 and not spec.get("keep_traj_fnames")
     seg.run_model()
+    seg.script_prefix, seg.script_init = [], seg.model0
     ctx.hit(f"variant={seg.variant}")
     cases = enumerate_segment(ctx, seg, sub, "A", depth_cb=None)
     judge(ctx, seg, cases, hist_id)
@@ -1138,9 +1254,90 @@ def run_history(ctx, work, spec0, need, hist_id, depth2=0, limit2=45, case_filte
                 seen.add(key)
                 picks.append(c)
         ctx.rng.shuffle(picks)
-        for n2, c in enumerate(sorted(picks[:depth2], key=lambda c: c["k"])):
+        chosen = picks[:depth2]
+        if depth2 >= 2 and spec.get("workers", 1) == 1:
+            # at least one second life whose restart has to REWRITE the data file (clean_data_file: the process died
+            # with the row of a replaced path written and the restart file not): every crash point of that restart
+            # procedure is enumerated in it; preferably after a zero swap with exactly one of its two rows written
+            def in_window(c):
+                st = seg.steps[c["step"]]
+                return bool(st["rows"]) and ("write_toml" in c["ev"]["tags"] or (
+                    "write_to_pathens" in c["ev"]["tags"] and c["mode"] in ("half", "one", "line")))
+            inwin = [c for c in good if in_window(c)]
+            if inwin and not any(in_window(c) for c in chosen):
+                chosen.append(([c for c in inwin if c["mode"] == "line"] or inwin)[0])
+        for n2, c in enumerate(sorted(chosen, key=lambda c: c["k"])):
             second_life(ctx, seg, c, sub, hist_id, n2, limit2)
     shutil.rmtree(sub, ignore_errors=True)
+
+
+def work_tokens(choice):
+    files = [f for a in choice["accs"] for f in a["files"]]
+    return "0 " + tl(files, lambda nc: f"{nc[0]} {nc[1]}")
+
+
+def script_events(seg, crash=None):
+    """the events (Model/FsRestart.lean `Event`) of one process life as the model sees it: worker output + completed
+    step for every step of the reference, or up to the death `crash` = (step index, effect index, half, choice)"""
+    evs = []
+    for si, st in enumerate(seg.steps):
+        if crash is not None and si == crash[0]:
+            sj, j, half, choice, between = crash
+            if not between:
+                evs.append(work_tokens(choice))
+            evs.append(f"2 {t_choice(choice)} {j} {1 if half else 0}")
+            return evs
+        if "choice" not in st:
+            return None
+        evs.append(work_tokens(st["choice"]))
+        evs.append(f"1 {t_choice(st['choice'])}")
+    return evs if crash is None else None
+
+
+def norm_mem(m):
+    return dict(m, olds=[(pn, sorted(names)) for pn, names in m["olds"]],
+                live=[dict(p, files=sorted(map(tuple, p["files"]))) for p in m["live"]])
+
+
+def compare_script(ctx, seg2, hist_id):
+    """the composed model function (`runScript`: every life of the chain, deaths and restarts included, in ONE
+    call) against (a) the real tree at the end of the last life and (b) the step-by-step model run"""
+    if not (seg2.model_ok and getattr(seg2, "script_prefix", None) is not None and seg2.steps
+            and all("post" in st for st in seg2.steps)):
+        return
+    tail = script_events(seg2)
+    if tail is None:
+        return
+    evs = seg2.script_prefix + tail
+    init = seg2.script_init
+    line = (f"script {seg2.cfg} {t_manifest(seg2.final_manifest)} 1 {t_mem(init['mem'])} {disk_tokens(init['disk'])} 0 "
+            f"{tl(evs)}")
+    out, = ctx.driver([line])
+    where = {"segment": seg2.label, "history": hist_id, "what": "runScript over all lives", "events": len(evs)}
+    if out == "bad-op":
+        ctx.disagree(where, "driver rejected the script line", line[:300])
+        return
+    flags, mem_s, dtok, dtmp = out.split(" | ")
+    fl = dict(f.split("=") for f in flags.split())
+    if fl["alive"] != "1" or dtmp.strip() != "0":
+        ctx.disagree(where, "the last life of the chain finished (alive, no temp file of the data file)", f"{flags} dtmp={dtmp}")
+        return
+    mdisk = Toks(dtok).disk()
+    mmem = Toks(mem_s).mem()
+    post = seg2.steps[-1]["post"]
+    if norm_mem(mmem) != norm_mem(post["mem"]) or {k: v for k, v in mdisk["files"].items() if k[0] != 6} != \
+            {k: v for k, v in post["disk"]["files"].items() if k[0] != 6 and v[0] != 0} or \
+            (mdisk["rows"], mdisk["restart"]) != (post["disk"]["rows"], post["disk"]["restart"]):
+        ctx.disagree(dict(where, what="runScript vs the step-by-step model run"), str(post["mem"])[:300], str(mmem)[:300])
+    diffs = compare_tree(seg2.reg, seg2.ref_root, dict(mdisk, files={k: v for k, v in mdisk["files"].items() if k[0] != 6}),
+                         seg_tmpname(seg2))
+    if os.path.exists(os.path.join(seg2.ref_root, "infretis_data.txt.tmp")):
+        diffs.append("infretis_data.txt.tmp exists at the end of the run, model says absent")
+    if diffs:
+        ctx.disagree(dict(where, what="final tree of the last life"), diffs[:6], "runScript disk")
+    ctx.hit(f"script-lives-{len(seg2.chain) + 1}")
+    ctx.count(1, branch=f"script|lives={len(seg2.chain) + 1}")
+    ctx.distinct((hist_id, seg2.label, "script"))
 
 
 def second_life(ctx, seg, c, work, hist_id, n2, limit2, depth=2):
@@ -1171,6 +1368,15 @@ def second_life(ctx, seg, c, work, hist_id, n2, limit2, depth=2):
         seg2.model0 = {"mem": c["mrestored"], "disk": d0, "pinfo": pin, "manifest": man}
         seg2.model_ok = True
         seg2.run_model()
+        # the chain of lives so far as ONE script for `runScript`
+        if getattr(seg, "script_prefix", None) is not None and "mpoint" in c:
+            si, j, half = c["mpoint"]
+            head = script_events(seg, (si, j, half, c.get("mchoice", seg.steps[si]["choice"]), c["ev"]["step"] is None))
+            if head is not None:
+                seg2.script_prefix = seg.script_prefix + head + [f"4 {seg.spec.get('workers', 1)}"]
+                seg2.script_init = seg.script_init
+        if seg2.model_ok:
+            compare_script(ctx, seg2, hist_id)
     cases = enumerate_segment(ctx, seg2, work, f"B{n2}", limit_events=limit2)
     judge(ctx, seg2, cases, hist_id)
     ctx.hit("second-life-segments" if depth == 2 else f"process-life-{depth + 1}-segments")
